@@ -44,7 +44,7 @@ PROPS = {
     "C08": dict(
         prefixes=["c08_", "c09_copy"],
         builds={"quick": [("default", [])], "thorough": [("default", []), ("no_copy_impls", ["no_copy_impls"])]},
-        level_text="Bounded model checking of the real copy_to (BufBitReader u8..u64, BitReader) and copy_from (BufBitWriter u8..u128) code, optimised paths and (thorough tier, crate rebuilt with no_copy_impls) the generic chunked paths: one copy of symbolic length from an arbitrary reader/writer state to/from a model stream that asserts the bit-stream preconditions at every call; asserts the exact bits transferred, exact advance of both sides and re-establishment of the reader/writer invariants, from which all later operations behave as after a bit-by-bit transfer (C01/C02 hold from every invariant state).",
+        level_text="Bounded model checking of the real copy_to (BufBitReader u8..u64, BitReader) and copy_from (BufBitWriter u8..u128) code, optimised paths and (thorough tier, crate rebuilt with no_copy_impls) the generic chunked paths: one copy of symbolic length from an arbitrary reader/writer state to/from a model stream that asserts the bit-stream preconditions at every call; asserts the exact bits transferred, exact advance of both sides and re-establishment of the reader/writer invariants, from which all later operations behave as after a bit-by-bit transfer (C01/C02 hold from every invariant state). c09_copy_*: copy_to from any reader state over a strict word source truncated after any number of words is Ok with exactly the stream's bits and an advance of n iff the n bits exist (no read-ahead beyond the last bit needed may surface as an error), an error otherwise.",
         assumptions=[
             "copy length n <= 2W+64 (<=200 for u128 words): covers n=0, n inside the buffer, n spanning several words",
             "reader/writer pre-states as in C01/C02; more than one word buffered (after a look-ahead refill) included",
@@ -143,12 +143,13 @@ PROPS = {
     ),
     "C10": dict(
         prefixes=["c10_"],
-        level_text="Bounded model checking of the real dispatch code: for every compile-time constant 0..=50 (ConstCode<ID>: inherent methods, Static* trait impls, CodeLen), every enumeration variant with parameters 0..=11 plus symbolic parameters 11..=63 (Codes: write/read/len, Static* impls) and the function-pointer dispatchers (FuncCodeWriter/Reader/Len::new) and the reader-factory dispatcher (FactoryFuncCodeReader::new, through get() and inner(), over a harness-side reader factory), the dispatcher and the code's own method named by the identifier run on two copies of a model stream with the same symbolic value: same bits, same lengths, same values, same positions, and the dispatcher reads back what it wrote; unsupported parameters are rejected.",
+        level_text="Bounded model checking of the real dispatch code: for every compile-time constant 0..=50 (ConstCode<ID>: inherent methods, Static* trait impls, CodeLen), every enumeration variant with parameters 0..=11 plus symbolic parameters 11..=63 (Codes: write/read/len, Static* impls) and the function-pointer dispatchers (FuncCodeWriter/Reader/Len::new) and the reader-factory dispatcher (FactoryFuncCodeReader::new, through get() and inner(), over a harness-side reader factory), the dispatcher and the code's own method named by the identifier run on two copies of a model stream with the same symbolic value: same bits, same lengths, same values, same positions, and the dispatcher reads back what it wrote; unsupported parameters are rejected or perform exactly that code. Quick tier: the symbolic-value harnesses for a sample of identifiers per mechanism, plus sweeps (c10_sweep_*) that run EVERY identifier / variant of every mechanism at one concrete value (13) against the code it names, so that every table entry and match arm is exercised on every change; the remaining per-identifier symbolic-value harnesses are thorough / deep tier.",
         assumptions=[
             "oracle: (family, parameter) derived from the identifier's NAME, restated once in the harness (direct_write!/direct_read!/direct_len)",
             "value domain per code as in C03; unary-prefixed codes bounded so that the codeword fits the 256-bit model stream",
             "streams: model stream MS<E,true> (parameterless traits use the table variants, like the real readers/writers)",
-            "anyhow error values are forgotten, message formatting stubbed",
+            "anyhow error values are forgotten (and <anyhow::Error as Drop>::drop is a no-op: errors leak), message formatting stubbed",
+            "c10_sweep_*: one concrete value per entry - decided by constant propagation during symbolic execution, no solver query in the value dimension (symbolic values in a sweep: 22 s per entry, out of budget for 236 entries)",
         ],
         outside=COMMON_OUTSIDE + ["the statistics-gathering wrapper's pass-through is checked in C15 (c15_wrapper_*)"],
     ),
